@@ -46,7 +46,11 @@ JDb(j) == [ ent      |-> [i \in Ids |-> JEnt(j.ent[i])],
             lnkPT    |-> [i \in Ids |-> ToSet(j.lnkPT[i])],
             lnkTP    |-> [t \in Teams |-> ToSet(j.lnkTP[t])],
             rcPT     |-> [i \in Ids |-> [t \in Teams |-> j.rcPT[i][t]]],
-            rcTP     |-> [t \in Teams |-> [i \in Ids |-> j.rcTP[t][i]]] ]
+            rcTP     |-> [t \in Teams |-> [i \in Ids |-> j.rcTP[t][i]]],
+            chief    |-> [t \in Teams |-> j.chief[t]],
+            backChief |-> [i \in Ids |-> ToSet(j.backChief[i])],
+            lnkST    |-> [i \in Ids |-> ToSet(j.lnkST[i])],
+            lnkTS    |-> [t \in Teams |-> ToSet(j.lnkTS[t])] ]
 
 \* the error classes the caller can tell apart (the classification functions of the library): mirror of storerun.Coarsen
 Coarse(op, app) == { CASE a \in {"notfound", "fkMissing"} -> "notfound"
@@ -62,10 +66,12 @@ Step(e) ==
     [] e.op = "update"       -> TxUpdate(a.via, a.id, JPerson(a.p), IF a.via = "staff" THEN JExt(a.x) ELSE DummyExt, JLt(a.lt), ToSet(a.fields), a.veto, a.osys)
     [] e.op = "delete"       -> TxDelete(a.via, a.id, a.veto, a.osys)
     [] e.op = "deleteWhere"  -> TxDeleteWhere(a.via, <<a.k, a.v>>, a.osys)
-    [] e.op = "createTeam"   -> TxCreateTeam(a.id)
+    [] e.op = "createTeam"   -> TxCreateTeam(a.id, a.chief)
+    [] e.op = "updateTeam"   -> TxUpdateTeam(a.id, a.chief)
     [] e.op = "deleteTeam"   -> TxDeleteTeam(a.id, a.osys)
     [] e.op \in {"addLinks", "removeLinks", "setLinks"} ->
-         (IF a.side = "teams" THEN TxLinksT(e.op, a.id, ToSet(a.keys)) ELSE TxLinks(e.op, a.id, ToSet(a.keys)))
+         (CASE a.side = "teams" -> TxLinksT(e.op, a.id, ToSet(a.keys)) [] a.side = "people" -> TxLinks(e.op, a.id, ToSet(a.keys))
+            [] a.side = "staff" -> TxLinksS(e.op, a.id, ToSet(a.keys)) [] a.side = "squads" -> TxLinksTS(e.op, a.id, ToSet(a.keys)))
     [] e.op \in {"addLink", "removeLink"} -> TxLink1(e.op, a.id, a.key)
     [] e.op \in {"rcInc", "rcDec"} -> TxRc(e.op, a.id, a.key, 0)
     [] e.op = "rcSet"        -> TxRc("rcSet", a.id, a.key, a.count)
